@@ -12,11 +12,66 @@ REMOVE = "tough::datastore::Datastore::remove"
 VERIFY = ("tough::schema::verify::<impl tough::schema::Root>::verify_role",)
 
 
+_SH = {}
+
+
+def stored_helper(prog, callee):
+    """file-parameter index if the crate-local function `callee` returns (as the payload of its
+    Ok/Some) nothing but a document parsed from Datastore::bytes(.., <its file parameter>) — the
+    "read the stored copy" helper; None otherwise (one level)"""
+    key = (id(prog), callee)
+    if key in _SH:
+        return _SH[key]
+    _SH[key] = None
+    if not callee or not callee.startswith("tough::") or "{closure" in callee or callee.startswith("tough::datastore::"):
+        return None
+    hctx = async_body(prog, callee)
+    if hctx is None or len(hctx.body.blocks) > 300:
+        return None
+    reads = hctx.calls(BYTES)
+    if not reads:
+        return None
+    idx = set()
+    for bb, t in reads:
+        og = hctx.origins.of_operand(t.args[1])
+        if len(og) != 1:
+            return None
+        idx.add(param_index_of_origin(prog, hctx, next(iter(og))))
+    if len(idx) != 1 or None in idx:
+        return None
+    docs = [o for o in fetched_origin(hctx) if o.kind == "call"]
+    if not docs or not all(stored_origin(hctx, base(o)) for o in docs):
+        return None
+    _SH[key] = idx.pop()
+    return _SH[key]
+
+
+def stored_reads(ctx, filename=None):
+    """sites that read the stored copy: (bb, terminator, nesting level of the document in the result)
+    — Datastore::bytes(..) itself (Result<Option<bytes>> then parsed: level 3) or a stored_helper
+    (Result<Option<document>>: level 2)"""
+    out = []
+    for bb, t in ctx.body.calls():
+        if t.is_call_to(BYTES):
+            if filename is None or ctx.const_str_of(t.args[1]) == filename:
+                out.append((bb, t, 3))
+            continue
+        callee = t.resolved or t.callee
+        i = stored_helper(ctx.prog, strip_generics(callee) if callee else callee)
+        if i is not None and i < len(t.args):
+            if filename is None or ctx.const_str_of(t.args[i]) == filename:
+                out.append((bb, t, 2))
+    return out
+
+
 def stored_origin(ctx, o, filename=None):
     """is origin `o` a document parsed from datastore bytes (optionally of `filename`)?"""
     if o.kind != "call":
         return False
     t = o.extra
+    i = stored_helper(ctx.prog, o.key[1]) if not path_match(o.key[1], BYTES) else None
+    if i is not None and t is not None and i < len(t.args):
+        return filename is None or ctx.const_str_of(t.args[i]) == filename
     if path_match(o.key[1], "core::option::Option::map") or any(path_match(o.key[1], p) for p in SER_PARSE):
         srcs = ctx.origins.of_operand(t.args[0])
         bs = root_calls(srcs, BYTES)
@@ -48,7 +103,7 @@ def skip_edges(ctx, filename):
     """edges on which the stored reference is absent / unparsable / no longer verifies"""
     S = []
     info = []
-    for bb, t in ctx.calls(BYTES, arg_const={1: filename}):
+    for bb, t, _lvl in stored_reads(ctx, filename):
         tr = ctx.track_call(bb)
         # level 0 is the io Result (its Err edge propagates the error: not a skip edge, but
         # removing it is harmless — it cannot lead to `create`)
